@@ -21,6 +21,7 @@ class RNG:
         self.reset_path()
 
     def reset_path(self):
+        _FRESH[0] = 0
         self.state = ('unseeded', 0)
         self.memo = {}
         self.log = []
@@ -36,6 +37,11 @@ class RNG:
         if key not in self.memo:
             if n <= 1:
                 v = 0
+            elif n > WIDE:
+                # a draw from a wide range: representatives only (first, second, last) - under-approximation, stated in the evidence
+                e = symx.CTX.fresh_int('draw')
+                symx.CTX.solver.add(e >= 0, e < 3)
+                v = [0, 1, n - 1][SInt(e, 0, 2).concretize()]
             else:
                 e = symx.CTX.fresh_int('draw')
                 symx.CTX.solver.add(e >= 0, e < n)
@@ -78,6 +84,8 @@ class RNG:
         vec = np.arange(a) if isinstance(a, (int, np.integer)) else np.asarray(a)
         n = len(vec)
         allowed = [i for i in range(n) if p is None or p[i] > 0]
+        if len(allowed) > WIDE:
+            allowed = allowed[:3] + allowed[-2:]      # a wide range: representatives only (under-approximation, stated in the evidence)
         if n == 0 and (size is None or int(np.prod(size)) > 0):
             raise ValueError("'a' cannot be empty unless no samples are taken")
         if size is None:
@@ -109,6 +117,44 @@ class RNG:
     def random(self, size=None):
         n = int(size)
         return np.array([(self._draw(4, 'random') + 0.5) / 4 for _ in range(n)])
+
+
+    # the new-style Generator API: default_rng(seed) is a generator of its own - seeded, its draws are a function of ITS seed;
+    # unseeded, it takes fresh OS entropy, so nothing (in particular not numpy.random.seed) determines its draws
+    def default_rng(self, seed=None):
+        return _Gen(self, seed)
+
+
+WIDE = 64
+_FRESH = [0]
+
+
+class _Gen:
+    def __init__(self, parent, seed):
+        self.r = RNG.__new__(RNG)
+        self.r.memo, self.r.log = parent.memo, parent.log
+        if seed is None:
+            _FRESH[0] += 1
+            self.r.state = (('os-entropy', _FRESH[0]), 0)
+        else:
+            self.r.state = (('generator', int(seed)), 0)
+
+    def choice(self, a, size=None, replace=True, p=None, **k):
+        return self.r.choice(a, size=size, replace=replace, p=p)
+
+    def integers(self, low, high=None, size=None, **k):
+        return self.r.randint(low, high, size)
+
+    def shuffle(self, arr):
+        return self.r.shuffle(arr)
+
+    def permutation(self, x):
+        arr = np.arange(x) if isinstance(x, (int, np.integer)) else np.array(x)
+        self.r.shuffle(arr)
+        return arr
+
+    def random(self, size=None):
+        return self.r.random(size)
 
 
 RNGI = RNG()
